@@ -72,11 +72,36 @@ Definition customize_parent (evs : list ev) : option json :=
                        | CHook HCustomize (JObj m) => alookup "parent" m
                        | _ => None end) evs.
 
+(* a customize call for key that did not yield rules (error status, transport error, unreadable body) *)
+Definition failed_call (key : ckey) (ca : call * answer) : bool :=
+  match cust_key_of (fst ca) with
+  | Some k' => ckey_eqb k' key && negb (decodable (snd ca))
+  | None => false
+  end.
+
+Fixpoint after_first_failure (key : ckey) (l : list (call * answer)) : option (list (call * answer)) :=
+  match l with
+  | [] => None
+  | ca :: l' => if failed_call key ca then Some l' else after_first_failure key l'
+  end.
+
+(* all: oldest first.  After the first failed call for key the hook was asked again for key *)
+Definition asked_again_after_failure (key : ckey) (all : list (call * answer)) : bool :=
+  match after_first_failure key all with
+  | None => true
+  | Some rest => existsb (fun ca => match cust_key_of (fst ca) with
+                                    | Some k' => ckey_eqb k' key | None => false end) rest
+  end.
+
 (* a sync / finalize / probe view: the parent sent and the related map on the wire *)
 Definition view_fail (c : ccfg) (k : cache) (all : list (call * answer)) (body : json) : option string :=
   let parent := jget "parent" (obj_map body) in
   match rules_in_effect all (parent_key parent) with
-  | None => if has_customize c then Some "related-sent-without-a-customize-answer" else None
+  | None => if has_customize c
+            then if existsb (failed_call (parent_key parent)) all
+                 then Some "customize-not-asked-again-after-failure"
+                 else Some "related-sent-without-a-customize-answer"
+            else None
   | Some rules =>
       if negb (C15_related_exact c k rules body) then Some "related-differs-from-rule-selection" else
       if negb (C15_selected_implies_trigger c rules body) then Some "selected-object-does-not-trigger" else None
@@ -372,4 +397,43 @@ Definition C13c_check (c : c13c_case) : verdict :=
       if existsb (fun u => negb (is_p1_sync u) && match u_round u with None => negb (u_woken u) | Some _ => false end)
                  (c13c_uses c)
       then DIVERGE "anchor-parent-not-woken" else OK
+  end.
+
+(* ================= C12c: customize hook faults leave no trace (a leg of property C12) =================
+   The hook fails a few times and then answers with c12c_good; one controller instance keeps syncing the
+   same parent generation. *)
+Record c12c_case := mkC12c { c12c_base : c15case; c12c_good : json }.
+
+Definition c12c_round_fail (c : ccfg) (good : list (option rule)) (seen : list (call * answer)) (r : round) : option string :=
+  let all := seen ++ pairs_of (r_events r) in
+  first_some (fun e => match e_call e with
+                       | CHook _ body =>
+                           let key := parent_key (jget "parent" (obj_map body)) in
+                           if negb (asked_again_after_failure key all)
+                           then Some "customize-not-asked-again-after-failure" else
+                           if negb (C15_related_exact c (r_cache r) good body)
+                           then Some "related-map-wrong-after-customize-failure" else None
+                       | _ => None end) (hook_events (r_events r)).
+
+Fixpoint c12c_build_fail (c : ccfg) (good : list (option rule)) (seen : list (call * answer))
+         (steps : list c15step) (i : nat) : option string :=
+  match steps with
+  | [] => None
+  | s :: rest =>
+      match (match s with StSync r => c12c_round_fail c good seen r | StProbe _ => None end) with
+      | Some w => Some (w ++ "@step" ++ string_of_Z (Z.of_nat i))%string
+      | None => c12c_build_fail c good (seen ++ pairs_of (step_events s)) rest (S i)
+      end
+  end.
+
+Definition C12c_check (c : c12c_case) : verdict :=
+  let b := c12c_base c in
+  match decode_customize (c12c_good c) with
+  | None => SKIP "the good answer is not decodable"
+  | Some good =>
+      if negb (rules_in_domain good) then SKIP "label syntax outside the modelled domain" else
+      match first_some (fun steps => c12c_build_fail (c15_cfg b) good [] steps 0) (c15_builds b) with
+      | Some w => PROPFAIL w
+      | None => C15_check b
+      end
   end.
